@@ -19,7 +19,7 @@ open Slock.Conn
 
 def showDest : Dest → String
   | .to d => s!">{d}"
-  | .dropped | .filtered | .parked _ => "drop"
+  | .dropped | .filtered => "drop"
   | .lost _ => "lost"
   | .loop => "crash"
 
